@@ -17,11 +17,23 @@ ALL_DIMS = dict(refdata.DIMS)
 ALL_DIMS.update(lab.DIMS)
 
 
+# user-declared currencies (Money.new_unit) whose smallest fraction is NOT a power of ten: code -> (minor_unit,
+# smallest_fraction as given to the library).  None of the codes is in the ISO 4217 table.
+LAB_CUR = {"XL5": (2, "0.05"), "XQ4": (2, "0.25"), "XH1": (1, "0.5"), "XT2": (3, "0.002")}
+
+
 def unit(desc):
     from quantity import Unit
     if isinstance(desc, (list, tuple)):
         from quantity.money import Money
-        return Money.register_currency(desc[1])
+        code = desc[1]
+        if code in LAB_CUR:
+            try:
+                return Money.get_unit_by_symbol(code)
+            except ValueError:
+                mu, sf = LAB_CUR[code]
+                return Money.new_unit(code, f"lab currency {code}", mu, sf)
+        return Money.register_currency(code)
     return Unit(desc)
 
 
@@ -42,6 +54,8 @@ def scale(desc) -> Fraction:
 def quantum(desc):
     """Quantum expressed in the unit itself, or None."""
     if isinstance(desc, (list, tuple)):
+        if desc[1] in LAB_CUR:
+            return Fraction(LAB_CUR[desc[1]][1])
         return iso.fraction_of(desc[1])
     t = ALL_UNITS[desc][0] if desc in ALL_UNITS else None
     q = ALL_QUANTUM.get(t)
@@ -67,6 +81,6 @@ def sym(desc):
     return desc[1] if isinstance(desc, (list, tuple)) else desc
 
 
-CUR_SAMPLE = ["EUR", "USD", "JPY", "TND", "KWD", "CLF", "UYW", "ISK", "BHD", "CHF", "GBP", "KRW"]
+CUR_SAMPLE = ["EUR", "USD", "JPY", "TND", "KWD", "CLF", "UYW", "ISK", "BHD", "CHF", "GBP", "KRW"] + sorted(LAB_CUR)
 
 cls_of_any = cls_of
